@@ -5,36 +5,16 @@ import (
 	"sort"
 	"strings"
 
-	"github.com/RoaringBitmap/roaring/v2"
 	segment "github.com/blevesearch/scorch_segment_api/v2"
 
 	"verif/dump"
 	"verif/enum"
+	"verif/mx"
 	"verif/ref"
 	"verif/run"
 	"verif/spec"
 	"verif/zx"
 )
-
-// refOf computes the reference content of an expression (no zapx involved).
-func refOf(menu []spec.Batch, e enum.Expr) *ref.Content {
-	if e.Leaf != 0 {
-		return ref.FromBatch(menu[e.Leaf-1])
-	}
-	ins := make([]*ref.Content, len(e.In))
-	drops := make([][]bool, len(e.In))
-	for i, c := range e.In {
-		ins[i] = refOf(menu, c)
-		if e.DropOK[i] {
-			drops[i] = make([]bool, ins[i].Count)
-			for _, d := range e.Drops[i] {
-				drops[i][d] = true
-			}
-		}
-	}
-	c, _ := ref.FromMerge(ins, drops)
-	return c
-}
 
 // oneHitClasses predicts which (field, term) entries of a MERGED segment use the
 // single-hit dictionary encoding: one surviving hit with frequency 1, no locations.
@@ -79,93 +59,13 @@ func stateKey(c *ref.Content, classes string, mode uint32, merged bool) string {
 	return fmt.Sprintf("mode=%d merged=%v 1hit=[%s]\n%s", mode, merged, classes, c.Render(ref.AllVecs))
 }
 
-type evald struct {
-	seg     segment.Segment
-	exp     *ref.Content
-	cleanup []func()
-	// root merge results
-	maps   [][]uint64
-	size   uint64
-	path   string
-	expMap [][]uint64
-	merged bool
-}
-
-func (e *evald) close() {
-	for i := len(e.cleanup) - 1; i >= 0; i-- {
-		e.cleanup[i]()
-	}
-}
-
-// evalExpr replays the expression on fresh objects. A failure of an inner
-// operation is reported as error with the operation named.
-func evalExpr(menu []spec.Batch, e enum.Expr, mode uint32) (*evald, error) {
-	rv := &evald{}
-	if e.Leaf != 0 {
-		b := menu[e.Leaf-1]
-		rv.exp = ref.FromBatch(b)
-		seg, _, err := zx.Build(b, mode)
-		if err != nil {
-			return rv, fmt.Errorf("build of M%d: %v", e.Leaf-1, err)
-		}
-		rv.cleanup = append(rv.cleanup, func() { seg.Close() })
-		rv.seg = seg
-		if e.Opened {
-			o, path, err := zx.PersistOpen(seg)
-			if path != "" {
-				rv.cleanup = append(rv.cleanup, func() { zx.Remove(path) })
-			}
-			if err != nil {
-				return rv, fmt.Errorf("persist+open of M%d: %v", e.Leaf-1, err)
-			}
-			rv.cleanup = append(rv.cleanup, func() { o.Close() })
-			rv.seg = o
-		}
-		return rv, nil
-	}
-	ins := make([]*ref.Content, len(e.In))
-	segs := make([]segment.Segment, len(e.In))
-	drops := make([][]bool, len(e.In))
-	bms := make([]*roaring.Bitmap, len(e.In))
-	for i, c := range e.In {
-		sub, err := evalExpr(menu, c, mode)
-		rv.cleanup = append(rv.cleanup, sub.close)
-		if err != nil {
-			return rv, fmt.Errorf("input %d: %v", i, err)
-		}
-		ins[i], segs[i] = sub.exp, sub.seg
-		if e.DropOK[i] {
-			drops[i] = make([]bool, sub.exp.Count)
-			bms[i] = roaring.New()
-			for _, d := range e.Drops[i] {
-				drops[i][d] = true
-				bms[i].Add(uint32(d))
-			}
-		}
-	}
-	rv.exp, rv.expMap = ref.FromMerge(ins, drops)
-	path, maps, size, err := safeMerge(segs, bms, mode)
-	rv.cleanup = append(rv.cleanup, func() { zx.Remove(path) })
-	if err != nil {
-		return rv, fmt.Errorf("Merge: %v", err)
-	}
-	rv.maps, rv.size, rv.path, rv.merged = maps, size, path, true
-	o, err := zx.Plugin.Open(path)
-	if err != nil {
-		return rv, fmt.Errorf("Open of the merged file: %v", err)
-	}
-	rv.cleanup = append(rv.cleanup, func() { o.Close() })
-	rv.seg = o
-	return rv, nil
-}
-
 // emptyMergeKind: 0 = not a merge without survivors, 1 = merge without survivors
 // over < 2 fields, 2 = over >= 2 fields.
 func emptyMergeKind(menu []spec.Batch, e enum.Expr) int {
 	if e.Leaf != 0 {
 		return 0
 	}
-	r := refOf(menu, e)
+	r := mx.RefOf(menu, e)
 	if r.Count != 0 {
 		return 0
 	}
@@ -201,18 +101,18 @@ func mergeClass(menu []spec.Batch, e enum.Expr) string {
 // mergeOracle checks the root merge of an evaluated expression. which selects
 // the property: "C05" (renumbering, stored, ids, fields, size), "C06" (index +
 // doc values), "C13" (thesauri), "C15" (vectors).
-func mergeOracle(which string, ev *evald, a *run.Acc) (kind, msg string) {
-	exp := ev.exp
+func mergeOracle(which string, ev *mx.Evald, a *run.Acc) (kind, msg string) {
+	exp := ev.Exp
 	switch which {
 	case "C05":
-		if m := zx.CheckMaps(ev.expMap, ev.maps); m != "" {
+		if m := zx.CheckMaps(ev.ExpMap, ev.Maps); m != "" {
 			return "maps", m
 		}
-		if fs := zx.FileSize(ev.path); fs != int64(ev.size) {
-			return "size", fmt.Sprintf("Merge reported %d bytes, file has %d", ev.size, fs)
+		if fs := zx.FileSize(ev.Path); fs != int64(ev.Size) {
+			return "size", fmt.Sprintf("Merge reported %d bytes, file has %d", ev.Size, fs)
 		}
 	}
-	got, err := dump.Segment(ev.seg, dump.UniverseOf(exp))
+	got, err := dump.Segment(ev.Seg, dump.UniverseOf(exp))
 	a.Eval(1)
 	if err != nil {
 		return "read", err.Error()
@@ -271,7 +171,7 @@ func mergeOracle(which string, ev *evald, a *run.Acc) (kind, msg string) {
 				want = append(want, byID[id]...)
 			}
 			sort.Slice(want, func(i, j int) bool { return want[i] < want[j] })
-			bm, err := ev.seg.DocNumbers(probe)
+			bm, err := ev.Seg.DocNumbers(probe)
 			if err != nil {
 				return "docnumbers", fmt.Sprintf("DocNumbers(%q): %v", probe, err)
 			}
@@ -280,24 +180,15 @@ func mergeOracle(which string, ev *evald, a *run.Acc) (kind, msg string) {
 			}
 		}
 	case "C13":
-		if m := checkThesauri(ev.seg, exp, a, "merged"); m != "" {
+		if m := checkThesauri(ev.Seg, exp, a, "merged"); m != "" {
 			return "synonyms", m
 		}
 	case "C15":
-		if m := vecMergeOracle(ev.seg, exp); m != "" {
+		if m := vecMergeOracle(ev.Seg, exp); m != "" {
 			return "vectors", m
 		}
 	}
 	return "", ""
-}
-
-func safeMerge(segs []segment.Segment, bms []*roaring.Bitmap, mode uint32) (path string, maps [][]uint64, size uint64, err error) {
-	defer func() {
-		if r := recover(); r != nil {
-			err = fmt.Errorf("panic in Merge: %v", r)
-		}
-	}()
-	return zx.Merge(segs, bms, mode)
 }
 
 func singles(ids []string) [][]string {
@@ -315,8 +206,8 @@ func runMerge(which string) func(ci interface{}, a *run.Acc) {
 		// vector ids carry 31 random bits: seed once per case (replayable), never per
 		// build, so that two builds inside one case do not get colliding ids
 		prepareVecBatch(nil)
-		ev, err := evalExpr(menu, c.E, c.Mode)
-		defer ev.close()
+		ev, err := mx.EvalExpr(menu, c.E, c.Mode)
+		defer ev.Close()
 		a.Trace(1)
 		a.Transition(1)
 		class := mergeClass(menu, c.E)
@@ -325,22 +216,22 @@ func runMerge(which string) func(ci interface{}, a *run.Acc) {
 			a.Outcome("violation")
 			return
 		}
-		if ev.exp.Count > 0 {
+		if ev.Exp.Count > 0 {
 			a.NonTrivial(c.E.String() + fmt.Sprint(c.Mode))
 		}
-		predicted := oneHitClasses(ev.exp)
-		observed := observedOneHit(ev.seg, ev.exp)
+		predicted := oneHitClasses(ev.Exp)
+		observed := observedOneHit(ev.Seg, ev.Exp)
 		if predicted != observed {
 			a.Count("onehit_prediction_mismatch", 1)
 			a.Note("single-hit class prediction differs from the implementation for " + c.E.String() + ": predicted [" + predicted + "] observed [" + observed + "]")
 		}
-		a.State(stateKey(ev.exp, observed, c.Mode, true))
+		a.State(stateKey(ev.Exp, observed, c.Mode, true))
 		if kind, msg := mergeOracle(which, ev, a); kind != "" {
 			a.Violation(kind+":"+class, fmt.Sprintf("%s (chunk mode %d):\n%s", c.E, c.Mode, msg))
 			a.Outcome("violation")
 			return
 		}
-		a.Outcome(fmt.Sprintf("ok/depth=%d/survivors=%d", c.E.Depth(), min(ev.exp.Count, 3)))
+		a.Outcome(fmt.Sprintf("ok/depth=%d/survivors=%d", c.E.Depth(), min(ev.Exp.Count, 3)))
 	}
 }
 
@@ -415,7 +306,7 @@ func genMerges(menuName string, b mergeBounds, emit func(enum.MergeCase)) {
 						}
 						emit(enum.MergeCase{Menu: menuName, Mode: mode, E: e})
 						if pi == 0 && l <= 2 && b.depth2 {
-							r := refOf(menu, e)
+							r := mx.RefOf(menu, e)
 							k := stateKey(r, oneHitClasses(r), mode, true)
 							if !seen[k] {
 								seen[k] = true
@@ -438,7 +329,7 @@ func genMerges(menuName string, b mergeBounds, emit func(enum.MergeCase)) {
 					e := enum.Expr{In: ins, Drops: drops, DropOK: ok}
 					emit(enum.MergeCase{Menu: menuName, Mode: mode, E: e})
 					if b.depth3 && len(ins) == 1 {
-						r := refOf(menu, e)
+						r := mx.RefOf(menu, e)
 						k := stateKey(r, oneHitClasses(r), mode, true)
 						if !seen2[k] && !seen[k] {
 							seen2[k] = true
